@@ -4,6 +4,7 @@ connection of a refresh in flight was last given the most recently resolved addr
 -/
 import GcpVerif.Proofs.AList
 import GcpVerif.Model.Pool
+import GcpVerif.Proofs.PoolHold
 namespace GcpVerif.Pool
 
 /-- connections the balancer holds: pool members and replacements of refreshes in flight -/
@@ -514,6 +515,15 @@ theorem addrsCur_step {s : St} (h : AddrsCur s) (op : Op) : AddrsCur (step s op)
     | pick call pn m ctx dl req => exact addrsCur_of_grow h (grow_opPick s call pn m ctx dl req)
     | ctxdone call => exact addrsCur_of_grow h (grow_opCtxDone s call)
     | done call err reply => exact addrsCur_of_grow h (grow_opDone s call err reply)
+    | pickHold call pn m ctx dl req =>
+      refine addrsCur_of_grow h ?_
+      exact opPickHold_cases (Grow s) s call pn m ctx dl req (grow_of_same ⟨rfl, rfl, rfl, rfl⟩)
+        (fun _ => grow_of_same ⟨rfl, rfl, rfl, rfl⟩) (grow_opPick s call pn m ctx dl req)
+    | resume call =>
+      refine addrsCur_of_grow h ?_
+      exact opResume_cases (Grow s) s call (grow_of_same ⟨rfl, rfl, rfl, rfl⟩)
+        (fun _ => grow_of_same ⟨rfl, rfl, rfl, rfl⟩)
+        (fun hl _ _ _ => (show Grow s { s with held := hl } from grow_of_same ⟨rfl, rfl, rfl, rfl⟩).trans (grow_newSubConn _))
   unfold step
   generalize stepCore s op = r at h1 ⊢
   obtain ⟨s1, ev⟩ := r
